@@ -100,9 +100,14 @@ class Acc:
 # --------------------------------------------------------------------------
 # one search shard (runs in a worker process)
 
-def _load(pid):
+def _load(pid, tolerate=False):
+    """tolerate: let check_case step over listed known findings (it labels
+    each hit 'kf:<key>') so that the search continues behind them."""
     core.bootstrap()
-    return importlib.import_module('vf.props.' + pid.lower())
+    mod = importlib.import_module('vf.props.' + pid.lower())
+    mod.KNOWN = {e['key'] for e in load_findings(pid)
+                 if e.get('status') == 'known'} if tolerate else set()
+    return mod
 
 
 def _guarded_check(mod, case, acc, known_keys):
@@ -124,6 +129,10 @@ def _guarded_check(mod, case, acc, known_keys):
             acc.record(case, None)
             return None
         raise
+    for k in list(labels or ()):
+        if k.startswith('kf:'):
+            acc.kf_hits[k[3:]] = acc.kf_hits.get(k[3:], 0) + 1
+            del labels[k]
     acc.record(case, labels)
     return labels
 
@@ -137,7 +146,7 @@ def search_shard(args):
 
 
 def _search_shard(pid, tier, seed, shard, nshards, deadline):
-    mod = _load(pid)
+    mod = _load(pid, tolerate=True)
     import hypothesis
     from hypothesis import HealthCheck, Phase, given, settings
     acc = Acc()
